@@ -165,6 +165,13 @@ def same(a, b):
     return a.iv == b.iv and a.facts == b.facts and a.sym == b.sym and a.cong == b.cong and a.cond == b.cond
 
 
+CONST_FIELDS = {}       # const item path -> {field: value} for struct constants (filled in by the inventory from the facts)
+
+
+def norm_const_path(p):
+    return re.sub(r"\b(std|alloc)::", "core::", p or "")
+
+
 class Analysis:
     def __init__(self, body, entry_iv=None, adts=None, summaries=None):
         """entry_iv: {key: (lo,hi)} facts assumed at function entry.  adts: facts.adts.
@@ -420,12 +427,20 @@ class Analysis:
         ln = self.op_lin(st, o)
         if ln is None or ln[0] != 0 or len(ln[1]) != 1 or abs(ln[1][0][1]) != 1:
             return False
-        s = ln[1][0][0]
+        return self._nz_sym(st, ln[1][0][0], 0)
+
+    def _nz_sym(self, st, s, depth):
         if ("E:NZ(%s)" % s) in st.iv:
+            return True
+        if depth > 3:
+            return False
+        # any integer cast of x being non-zero means x is non-zero (a truncation of 0 is 0)
+        tail = "(0+1*%s))" % s
+        if any(k.startswith("E:NZ(E:cast<") and k.endswith(tail) for k in st.iv):
             return True
         # a widening (or same-width) integer cast of a non-zero value is non-zero
         m = re.match(r"E:cast<(\w+)>\(0\+1\*(.*)\)$", s)
-        if m and ("E:NZ(%s)" % m.group(2)) in st.iv:
+        if m and self._nz_sym(st, m.group(2), depth + 1):
             src_ty = self.place_ty(m.group(2)) if not m.group(2).startswith("E:") else None
             if src_ty and BITS.get(src_ty, 999) <= BITS.get(m.group(1), 0):
                 return True
@@ -979,7 +994,31 @@ class Analysis:
                 if e_ln is not None and any(_mentions(x, it) for x in lin_syms(e_ln)):
                     e_ln = None
                 range_next = (s_iv, e_iv, e_ln, it)
+        incl_next = None
+        if re.search(r"Iterator for core::ops::RangeInclusive<A>>::next$|<core::iter::Rev<I> as core::iter::Iterator>::next$", name) and args:
+            pk = key_of(op_place(args[0])) if op_place(args[0]) else None
+            it = self._pointee(pk) if pk else None
+            if it and "Rev<I>" in name:
+                it = it + ".iter"
+            if it:
+                s_iv, e_iv = st.iv.get(it + ".start"), st.iv.get(it + ".end")
+                if s_iv and e_iv:      # for a reversed half-open range [start, end] over-approximates [start, end)
+                    incl_next = (s_iv, e_iv, it)
+        incl_new = None
+        if re.search(r"ops::RangeInclusive<Idx>::new$", name) and len(args) == 2:
+            ia, ib = self.op_iv(st, args[0]), self.op_iv(st, args[1])
+            if ia is not None and ib is not None:
+                incl_new = (ia, ib)
+        rev_of = None
+        if re.search(r"iter::Iterator::rev$", name) and args and op_place(args[0]) is not None:
+            sk = key_of(op_place(args[0]))
+            if sk and self.tracked(sk):
+                rev_of = [(k2[len(sk):], v) for k2, v in st.iv.items() if k2.startswith(sk + ".")]
         copy_fields = None
+        if name.endswith("IntoIterator>::into_iter") and args and isinstance(args[0], dict) and "const" in args[0]:
+            flds = CONST_FIELDS.get(norm_const_path(args[0]["const"].get("path")))
+            if flds:
+                copy_fields = ([("." + f, (v, v)) for f, v in flds.items() if isinstance(v, int)], [])
         if name.endswith("IntoIterator>::into_iter") and args and op_place(args[0]) is not None:
             sk = key_of(op_place(args[0]))
             if sk and self.tracked(sk):
@@ -1009,6 +1048,42 @@ class Analysis:
                     minmax = (max(ia[0], ib[0]), max(ia[1], ib[1]))
                 elif ia[0] >= 0 and ib[0] >= 0:
                     minmax = (max(0, ia[0] - ib[1]), ia[1])
+        checked = None
+        mc = re.search(r"num::<impl (u8|u16|u32|u64|u128|usize)>::checked_(add|mul)$", name)
+        if mc and len(args) == 2:
+            ia, ib = self.op_iv(st, args[0]), self.op_iv(st, args[1])
+            tr = ty_range(mc.group(1))
+            if ia is not None and ib is not None and tr and ia[0] >= 0 and ib[0] >= 0:
+                lo = ia[0] + ib[0] if mc.group(2) == "add" else ia[0] * ib[0]
+                hi = ia[1] + ib[1] if mc.group(2) == "add" else ia[1] * ib[1]
+                if lo <= tr[1]:
+                    checked = (lo, min(hi, tr[1]))     # the payload of Some: no wrap happened
+        tryfrom = None
+        mt = re.search(r"TryFrom<([iu](?:8|16|32|64|128|size))> for ([iu](?:8|16|32|64|128|size))>::try_from$", name)
+        if mt and len(args) == 1:
+            ia = self.op_iv(st, args[0], mt.group(1))
+            tr = ty_range(mt.group(2))
+            if ia is not None and tr:
+                fits = tr[0] <= ia[0] and ia[1] <= tr[1]
+                lo, hi = max(ia[0], tr[0]), min(ia[1], tr[1])
+                tryfrom = ((0, 0) if fits else ((1, 1) if lo > hi else (0, 1)), (lo, hi) if lo <= hi else None)
+        widen = None
+        mf = re.search(r"convert::From<(bool|[iu](?:8|16|32|64|128|size))> for ([iu](?:8|16|32|64|128|size))>::from$", name)
+        if mf and len(args) == 1:
+            ia = self.op_iv(st, args[0], mf.group(1) if mf.group(1) != "bool" else "u8")
+            if mf.group(1) == "bool":
+                ia = (max(0, ia[0]), min(1, ia[1])) if ia else (0, 1)
+            tr = ty_range(mf.group(2))
+            if ia is not None and tr and tr[0] <= ia[0] and ia[1] <= tr[1]:
+                widen = ia                # a lossless conversion keeps the value
+        keep_d = None
+        if re.search(r"result::Result<T, E>::(map_err|map|or_else|and_then)$", name) and args and op_place(args[0]) is not None:
+            ak = key_of(op_place(args[0]))
+            if ak and self.tracked(ak):
+                d0 = st.iv.get(ak + "#d")
+                meth = name.rsplit("::", 1)[1]
+                if d0 is not None and (meth in ("map_err", "map") or (meth == "or_else" and d0 == (0, 0)) or (meth == "and_then" and d0 == (1, 1))):
+                    keep_d = (d0, st.iv.get(ak + ".@Ok.0") if meth in ("map_err", "or_else") else None)
         new_cond = None
         summ = self.summaries.get(name)
         if summ and summ.get("ok"):
@@ -1057,6 +1132,37 @@ class Analysis:
                 st.sym[it + ".end"] = e_ln
             if s_iv and e_iv:
                 st.iv[it + ".start"] = (s_iv[0], max(e_iv[1], s_iv[1]))
+            return
+        if widen is not None:
+            st.iv[key] = widen
+            return
+        if tryfrom is not None:
+            st.iv[key + "#d"] = tryfrom[0]
+            if tryfrom[1] is not None:
+                st.iv[key + ".@Ok.0"] = tryfrom[1]
+            return
+        if keep_d is not None:
+            st.iv[key + "#d"] = keep_d[0]
+            if keep_d[1] is not None:
+                st.iv[key + ".@Ok.0"] = keep_d[1]
+            return
+        if checked is not None:
+            st.iv[key + ".@Some.0"] = checked
+            return
+        if incl_new is not None:
+            st.iv[key + ".start"], st.iv[key + ".end"], st.iv[key + ".exhausted"] = incl_new[0], incl_new[1], (0, 0)
+            return
+        if rev_of is not None:
+            for suf, v in rev_of:
+                st.iv[key + ".iter" + suf] = v
+            return
+        if incl_next is not None:
+            s_iv, e_iv, it = incl_next
+            if s_iv[0] <= e_iv[1]:
+                st.iv[key + ".@Some.0"] = (s_iv[0], e_iv[1])
+            # the iterator only moves its start upwards and keeps its end
+            st.iv[it + ".end"] = e_iv
+            st.iv[it + ".start"] = (s_iv[0], max(e_iv[1], s_iv[1]))
             return
         if copy_fields is not None:
             for suf, v in copy_fields[0]:
